@@ -166,6 +166,9 @@ def _back(a):
     calls = set(c for (_, c) in I.call_edges)
     waits = {}
     if "L::machine::bus::Bus::read" in calls or "L::machine::bus::Bus::write" in calls:
+        # (the data byte is independent of the address: the ALU output ranges over all bytes in both cells, so a wait
+        # decided by the byte written instead of the address written to makes a cell inhomogeneous)
+        I.fn_overrides["L::machine::alu::AluOutput::output"] = lambda I_, st_, depth, callee, args, b_, ln: D.norm_rng(0, 255)
         for label, cell in (("ram", D.norm_rng(0, 0xEF)), ("io", D.norm_rng(0xF0, 0xFF))):
             ov2 = machine_overrides(p, a, "Running", False, extra={"register.content": Arr([cell] * 8)})
             st2 = absint.State()
@@ -177,6 +180,7 @@ def _back(a):
                     break
             w2 = field(p, I, st2, ma2, "pending_wait_for_memory")
             waits[label] = sorted(w2.vs) if isinstance(w2, En) else None
+        I.fn_overrides.pop("L::machine::alu::AluOutput::output", None)
     return a, {"writes": sorted(wr), "bad": [repr(e) for e in bad[:5]], "waits": waits,
                "bus_read": "L::machine::bus::Bus::read" in calls,
                "bus_write": "L::machine::bus::Bus::write" in calls,
